@@ -48,12 +48,13 @@ def signature(toks, line):
         return _SIGCACHE[key]
     steps = toks[4:]
     sig = None
-    if any(s in ("afl", "afp") for s in steps) and _BIN[0]:
+    if any(s in ("afl", "afp") or s.startswith("ae") for s in steps) and _BIN[0]:
         prefixes = [" ".join(toks[:4] + steps[:i]) for i in range(1, len(steps) + 1)]
         rc, il, err = core.run_lines(_BIN[0], "\n".join(prefixes) + "\n")
         for i, a in enumerate(il):
             if a.startswith("ok out:"):
-                if steps[i] in ("afl", "afp"):
+                # a member / an IN-BOUNDS element of an aggregate that is not wholly inside (or of a null aggregate)
+                if steps[i] in ("afl", "afp") or (steps[i].startswith("ae") and 0 <= int(steps[i][2:]) <= 3):
                     sig = "C03/unchecked-member-designation"
                 break
     _SIGCACHE[key] = sig
@@ -71,15 +72,18 @@ def gen_chain(rng, sb, depth):
         if tag == "st":
             menu += ["fp", "afl", "afp", "afp"]
             menu.remove("ad")
+        menu += ["ae"]
         if rng.random() < 0.04:
             menu = ["mal"]
         s = rng.choice(menu)
+        if s == "ae":
+            s = "ae" + str(rng.choice([0, 1, 2, 3, 3, 4, 4, 5, -1, 1000]))
         if s in "+-[":
             n = rng.choice([0, 1, 2, 3, -1, -2, 5, 16, 100, 1000, 5461, 16383, 16384, 65535, 65536, -65536, 1 << 31, (1 << 32) + 1,
                             (1 << 62), -(1 << 62), rng.randrange(-70000, 70000)])
             s = s + str(n)
         toks.append(s)
-        tag = {"ci": "i", "cc": "c", "cpp": "pp", "cst": "st", "ld": "i", "fp": "i", "afl": "c", "afp": "pp", "mal": "i"}.get(s, tag)
+        tag = {"ci": "i", "cc": "c", "cpp": "pp", "cst": "st", "ld": "i", "fp": "i", "afl": "c", "afp": "pp", "mal": "i"}.get(s, "i" if s.startswith("ae") else tag)
     return " ".join(toks)
 
 
@@ -147,7 +151,7 @@ def run(chk):
     for i in range(nchains):
         ops.append(gen_chain(rng, i % 2, rng.randrange(1, 13 if thorough else 7)))
     # regression corpus: the witnesses of the findings run first on every seed
-    corpus = ["chain 0 null i [5", "chain 0 65532 c cst afp", "chain 0 null st afl", "chain 1 null pp [3 ld"]
+    corpus = ["chain 0 null i [5", "chain 0 65532 c cst afp", "chain 0 null st afl", "chain 1 null pp [3 ld", "chain 0 65520 i ae4", "chain 0 65520 i ae3 +1", "chain 1 16 c ae5"]
     ops = corpus + list(dict.fromkeys(ops))
     res = core.differential(chk, ops, binp, oracle, signature=signature, label="pointer derivations")
     blocks = sum(8192 for o in ops if o.startswith("repblk"))
